@@ -5,6 +5,14 @@ CHECKS = {
   text='Lean theorems: under the representation invariant the sparse maps of cyVariables refine a duplicate-free list (membership, index, append, single relabel step); the executable model is compared with the real Variables object (internal sparse state after every op, which calls raise) and the real object with list semantics (len, iteration, indexing, slicing, index, count, aliases, equality, copy, pickle) on random histories every run.',
   note='Trusted: Lean kernel + propext/Classical.choice/Quot.sound; the model-code tie is differential (random histories), NumPy scalar == nested tuple semantics excluded (DESIGN D23); multi-key relabel refinement is proved only per step so far.',
   technique='Lean 4 refinement proof (sparse maps -> list) + differential correspondence against cyVariables'),
+ 'C09': dict(
+  text='Lean theorems: header/section/BQM v1+v2/QM/expression/CQM-archive/label round trips for all well-formed contents (decode (encode m) = m, file consumed exactly, 64-byte alignment), directory names path-safe and string labels parsed back at JSON-text level; encoders compared byte-for-byte and decoders field-for-field with dimod on random models x options and the bundled files every run; loaded model compared with the original through the public API.',
+  note='json.loads (except string literals), zipfile, np.savez/np.load are parameters with stated contracts (JsonContract, ContainerContract); floats are opaque payloads; the lower-triangle -> adjacency rebuild and the final relabel are the models of C04/C13; legacy CQM 1.x layout only tested; DQM body trusted (partial theorem).',
+  technique='Lean 4 reader-program model + Comp composition proofs; byte/field differential correspondence via compiled driver; format constants regenerated from source'),
+ 'C10': dict(
+  text='Lean theorems: prefix lemma for all reader programs; for BQM v1/v2, QM and expression files every proper prefix raises or returns the original with < 64 padding bytes lost; guarded raw loaders and whole loaders never reach undefined behaviour for any bytes; every prefix of every generated file is loaded by the real code in forked children and its outcome class compared with the model; out-of-bounds reads are made observable by an unreadable guard page.',
+  note='CQM/DQM bodies under the zip/npz contract (partial theorems); crash/hang freedom of the binary is observed on the explored prefixes only; corrupt (non-truncated) files are out of scope.',
+  technique='Lean 4 reader-program model + prefix-stability proofs; every-prefix differential correspondence; electric fence (guard page); valgrind in thorough tier'),
 }
 
 _PENDING = 'check under construction in this round; not yet claimed'
